@@ -21,12 +21,14 @@ pub fn rt() -> tokio::runtime::Runtime {
 /// between the pick and its use. Listeners started later: 10000-19999; addresses that must refuse: 20000-29999.
 fn pick_port(lo: u16, hi: u16) -> u16 {
     use std::sync::atomic::{AtomicU64, Ordering};
+    // sequential from a per-process random base: no port is handed out twice within one process (the dial of an
+    // earlier case can never be attributed to a later case that happens to use the same "refusing" port)
     static N: AtomicU64 = AtomicU64::new(0);
-    let seed = std::process::id() as u64 * 7919 + std::time::SystemTime::now().duration_since(std::time::UNIX_EPOCH).map(|d| d.subsec_nanos() as u64).unwrap_or(0);
+    static BASE: std::sync::OnceLock<u64> = std::sync::OnceLock::new();
+    let base = *BASE.get_or_init(|| std::process::id() as u64 * 7919 + std::time::SystemTime::now().duration_since(std::time::UNIX_EPOCH).map(|d| d.subsec_nanos() as u64).unwrap_or(0));
     loop {
         let k = N.fetch_add(1, Ordering::SeqCst);
-        let x = (seed.wrapping_add(k.wrapping_mul(0x9e37_79b9_7f4a_7c15)) >> 17) % (hi - lo) as u64;
-        let port = lo + x as u16;
+        let port = lo + ((base + k) % (hi - lo) as u64) as u16;
         if std::net::TcpListener::bind(("127.0.0.1", port)).is_ok() && std::net::TcpListener::bind(("::1", port)).map(|_| true).unwrap_or(true) { return port; }
     }
 }
